@@ -144,10 +144,10 @@ func (w *udpResponse) WriteMsg(m *dns.Msg) error {
 	return err
 }
 func (w *udpResponse) Write(b []byte) (int, error) { return w.sock.WriteTo(b, w.raddr) }
-func (w *udpResponse) Close() error                 { return nil }
-func (w *udpResponse) TsigStatus() error            { return nil }
-func (w *udpResponse) TsigTimersOnly(bool)          {}
-func (w *udpResponse) Hijack()                      {}
+func (w *udpResponse) Close() error                { return nil }
+func (w *udpResponse) TsigStatus() error           { return nil }
+func (w *udpResponse) TsigTimersOnly(bool)         {}
+func (w *udpResponse) Hijack()                     {}
 
 // ResolvConf stands in for dns.ClientConfigFromFile("/etc/resolv.conf").
 func ResolvConf(string) (*dns.ClientConfig, error) {
